@@ -54,6 +54,8 @@ EXHAUSTIVE = {"quick": False, "thorough": False}
 
 LENS = [1, 2, 3, 5, 8, 16, 33, 64, 257]
 BW_FIXED = [2e9, 3e9, 4e9, 10e9, 25e9]
+# documented positional order of EDFA (signature of /repo HEAD 8caea4c, recorded here as a literal)
+POSITIONAL = {"EDFA": ["input", "G", "NF", "BW"]}
 BAD_INPUTS = ["ndarray", "ndarray2d", "esig", "list", "float", "int", "none", "binseq", "str", "complex"]
 
 
@@ -194,6 +196,22 @@ def _fresh_bpf(y, bw, fs, order=4):
         return {"status": "err", "err": exc_enum(e), "detail": repr(e)[:200]}
 
 
+def _dumps_equal(a, b):
+    """same error, or bit-identical signal / noise arrays (NaN == NaN)"""
+    if a.get("status") != b.get("status"):
+        return False
+    if a.get("status") == "err":
+        return a.get("err") == b.get("err")
+    if a.get("status") != "ok":
+        return True
+    for part in ("sig", "noise"):
+        if (a.get(part) is None) != (b.get(part) is None):
+            return False
+        if a.get(part) is not None and not np.array_equal(np.array(a[part], dtype=float), np.array(b[part], dtype=float), equal_nan=True):
+            return False
+    return a.get("shape") == b.get("shape")
+
+
 def _run_hist(case, res):
     """EDFA(x, G, NF, BW) with one BW under a sequence of sampling rates (gv re-configured in between, back to the first at the end)"""
     from opticomlib.typing import gv
@@ -277,12 +295,24 @@ def run_impl(case):
             res["calls"] = [{"shape": s["shape"]} for s in spied]
             if err:
                 res["main"] = err
+                if case["kind"] != "edfa_bad":
+                    _, errk = _call(EDFA, **dict(zip(POSITIONAL["EDFA"][:3], (x, case["G"], case["NF"]))))
+                    if not errk or errk.get("err") != err.get("err"):
+                        res["positional"] = f"positional call {err.get('err')}, keyword call {(errk or {'err': 'ok'}).get('err')}"
                 return res
             if case["kind"] == "soak":
                 res["main"] = {"status": "ok", "cls": type(y).__name__, "npol": int(y.n_pol), "shape": list(y.signal.shape)}
                 res["soak"] = _soak_stats(y, case["field"]["n"])
                 return res
             res["main"] = {"status": "ok", **F.dump_signal(y)}
+            # positional twin: the harness's main call passes (input, G, NF) by POSITION in the documented order; the same call
+            # by keyword under the same numpy seed must give the identical result
+            np.random.seed(case["np_seed"])
+            yk, errk = _call(EDFA, **dict(zip(POSITIONAL["EDFA"][:3], (x, case["G"], case["NF"]))))
+            kw = errk if errk else {"status": "ok", **F.dump_signal(yk)}
+            if not _dumps_equal(res["main"], kw):
+                res["positional"] = f"positional call ok, keyword call {str({k: kw.get(k) for k in ('status', 'err', 'detail')})[:160]}" + \
+                    (" with different arrays" if kw.get("status") == "ok" else "")
             if len(spied) == 1 and spied[0]["values"].shape == (4, case["field"]["n"]):
                 res["draw"] = [[float(v) for v in row] for row in spied[0]["values"]]
             # the statement's twin: same signal, no noise, same numpy seed -> its noise is the ASE realisation
@@ -299,8 +329,12 @@ def run_impl(case):
                     yb, err = _call(EDFA, x, case["G"], case["NF"], case["BW"])
                     fspy.on = False
                     res["fparams"], res["fremarks"] = c11._params(fspy)
-                np.random.randn = orig
                 res["bw"] = err if err else {"status": "ok", **F.dump_signal(yb)}
+                ybk, errk = _call(EDFA, **dict(zip(POSITIONAL["EDFA"], (x, case["G"], case["NF"], case["BW"]))))
+                kwb = errk if errk else {"status": "ok", **F.dump_signal(ybk)}
+                if not _dumps_equal(res["bw"], kwb):
+                    res["positional"] = f"with BW: positional call {res['bw'].get('status')}, keyword call {str({k: kwb.get(k) for k in ('status', 'err', 'detail')})[:160]}"
+                np.random.randn = orig
                 yf, err = _call(BPF, y, case["BW"])
                 res["bpf"] = err if err else {"status": "ok", **F.dump_signal(yf)}
                 res["ref"] = _fresh_bpf(y, case["BW"], res["fs"])
@@ -546,6 +580,9 @@ def oracle(case, res):
     m = res["main"]
     if m["status"] == "timeout":
         return [("C10:timeout", "EDFA did not return")]
+    if res.get("positional"):
+        v.append(("C10:positional:EDFA", f"EDFA called by position in the documented order {POSITIONAL['EDFA']} and by keyword gives different "
+                                         f"outcomes: {res['positional']}"))
     if "fs_req" in res and not (abs(res["fs"] - res["fs_req"]) <= 1e-12 * res["fs_req"]):
         v.append(("C10:gv-fs", f"gv configured with {case['gv']} reports fs={res['fs']!r}, requested {res['fs_req']!r}"))
     for path, part, row, idx in F.nonfinite_outputs({k: res[k] for k in ("main", "twin", "bw", "bpf", "steps") if k in res})[:3]:
@@ -636,6 +673,20 @@ def oracle(case, res):
             k = int(np.argmax(np.where(np.isfinite(comp - s * d), np.abs(comp - s * d), np.inf)))
             v.append(("C10:ase-scale", f"the real components of the ASE are not the unit-variance draws times sqrt(NF*h*f0*(G-1)*fs/4) = {s:.6g} "
                                        f"(P_ase={P:.6g}); e.g. order statistic {k}: {comp[k]:.6g} vs {s * d[k]:.6g}"))
+    # the same with an input that already carries noise (an all-zero noise array included): what is left of out.noise after the
+    # amplified incoming noise must again be the unit draws times sqrt(P_ase/4) — the ASE is added, never amplified
+    if "draw" in res and noise_in is not None:
+        gn = [g * noise_in[0], g * noise_in[1] if npol == 2 else np.zeros(n, dtype=complex)]
+        left = [no[0] - gn[0], no[1] - gn[1]]
+        d = np.sort(np.abs(np.array(res["draw"]).ravel()))
+        comp = np.sort(np.abs(np.concatenate([left[0].real, left[0].imag, left[1].real, left[1].imag])))
+        s = math.sqrt(P / 4) if P >= 0 else float("nan")
+        # |sqrt(G) n| may exceed the ASE by many orders: the subtraction above carries its rounding (8 eps of the larger operand)
+        tolabs = 8 * 2.3e-16 * max(F.maxabs(gn), F.maxabs(no))
+        if not F.close(comp, s * d, max(s * float(d[-1]) if d.size else 0.0, 1e-300), rel=1e-9, abs_=tolabs):
+            k = int(np.argmax(np.where(np.isfinite(comp - s * d), np.abs(comp - s * d), np.inf)))
+            v.append(("C10:ase-scale:noisy-input", f"input with noise ({fl['noise_kind']}): out.noise - sqrt(G)*in.noise is not the unit-variance draws times "
+                                                   f"sqrt(P_ase/4) = {s:.6g}; e.g. order statistic {k}: {comp[k]:.6g} vs {s * d[k]:.6g}"))
     # BW: the documented filter for the rate in force (fresh scipy design), and composition with the library's own BPF
     if case["BW"] is not None:
         v += _oracle_ref(f"fs={res['fs']:.4g}, BW={case['BW']:.4g}", m, res.get("bw"), res.get("ref"))
